@@ -368,6 +368,11 @@ def search_exprs(ctx: Ctx) -> SearchResult:
 			for i in range(8):
 				g = X.Gen(rng, SEARCH_ENV, 'search')
 				t = g.pick_ty(2) if rng.random() < 0.8 else ('list', ('opt', X.INT))
+				if i == 1 and rng.random() < 0.08:
+					# slices of tuples; negative / computed bounds are the known finding tuple-slice-nonliteral-bounds
+					tv = rng.choice(['t', 'tt'])
+					fns.append(f"{tv}[{rng.choice(['', '0', '1', '-1', '-2', 'a', 'c'])}:{rng.choice(['', '1', '2', '-1', 'a'])}]")
+					continue
 				if i == 0:
 					# one flat arithmetic chain per program (mixed operators of one precedence level, mixed int/bool/float operands)
 					fns.append(g.arith(rng.choice([X.FLOAT, X.INT]), 1).text)
@@ -438,6 +443,11 @@ STATEMENTS: dict[str, str] = {
 	'template': 'list[T].pop() is typed T for EVERY type T (Unions, nested generics): proved on the step-by-step port of TemplateManipulator by induction on T (false before e9f8d3f)',
 	'list_literal_counterexample': 'known finding list-literal-class-dedup: [[None], [1]] is typed list<list<int>> (outside Core)',
 	'dict_get_counterexample': 'known finding dict-get-missing-key: d.get("z") typed int, CPython returns None (outside Core)',
+	'abs_bool_counterexample': 'known finding abs-of-bool: abs(True) typed bool, CPython: int',
+	'list_items_counterexample': 'known finding list-of-dict-items: list(d.items()) typed list<str>, CPython: list of (key, value) tuples',
+	'boolop_counterexample': 'known finding boolop-nonbool-operands: 1 and 2 typed bool, CPython: int 2',
+	'tuple_slice_negative_counterexample': 'known finding tuple-slice-nonliteral-bounds: t[-1:] keeps the whole tuple type',
+	'ternary_union_counterexample': 'known finding ternary-union-of-containers: ([a] if p else [None]) * 2 — inference fails (OperationNotAllowed) on an expression CPython evaluates',
 }
 
 PARTIAL = {
@@ -446,14 +456,14 @@ PARTIAL = {
 		'session independence for all expressions; template substitution of list.pop for all element types',
 	'correspondence_only': 'that the model IS the code: ProceduralResolver handlers, try_operation, TemplateManipulator path matching (stream infer, shared sessions = history); CPython semantics of the core (stream pytype)',
 	'search_only': 'scope lookup (incl. shadowing through nested classes), inheritance walk, user classes and their attributes/methods, Enum, user generics, resolve_unknown laziness, statements (for/while/try), declarations',
-	'still_false_on_the_code (known findings)': 'list-literal-class-dedup, dict-get-missing-key: each with a proved counterexample outside Core and a corpus witness',
+	'still_false_on_the_code (known findings)': 'list-literal-class-dedup, dict-get-missing-key, abs-of-bool, list-of-dict-items, boolop-nonbool-operands, tuple-slice-nonliteral-bounds, ternary-union-of-containers (each with a proved counterexample outside Core), min-max-mixed-numeric, union-of-subclasses-attribute, explicit-init-call (floats / user classes are outside the model: corpus witness only); every one is generated at a low rate and replayed from corpus/C03 first',
 }
 
 ASSUMPTIONS = [
 	'stub classes have fewer than ten attributes per symbol (dotted-path prefix test of template.py = list prefix)',
 	'comprehension targets do not shadow parameters; a referenced unpacking target beyond the item arity is not generated (raw IndexError / Errors.Fatal depending on context)',
 	'at most one ill-typed atom per generated expression (error precedence between two faults inside a comprehension is not modelled)',
-	'generated domain of the search excludes: a list literal over a class AND its subclass (proposed/C03-union-of-subclasses-attribute.md), a ternary between differently-inferred containers of optionals, tuple slices with non-literal bounds',
+	'outside the quantifier (not generated by the search; the infer stream still pins what the code answers): programs CPython rejects at run time although the stub accepts them (a | 1.5, a << 1.5, "s" & a: not well-typed); operations the stub library does not declare (list + list, bool ^ bool, float % bool, str * bool, iteration over str / tuple, list(str)): tranp refuses them with OperationNotAllowed / UnresolvedSymbol = outside the supported subset; assigning the result of list.remove (typed T_Value by the stub, None in CPython: Python type checkers reject the use of that value)',
 	'pytype domain: |int| < 2^50, finite floats of moderate magnitude, containers up to 64 items, ASCII strings (enforced at run time by a checker around every intermediate value; outside cases are discarded, not compared)',
 	'search oracle: only determined run-time types are compared; the value of an expression statement is not compared; type arguments of user generics are erased at run time and not compared; instances of a subclass are accepted for the declared base class',
 ]
@@ -476,7 +486,7 @@ def run(ctx: Ctx) -> int:
 	with ctx.timed('correspondence'):
 		streams = [stream_infer(ctx), stream_pytype(ctx)]
 	with ctx.timed('search'):
-		searches = [search_exprs(ctx), search_programs(ctx), search_typed_programs(ctx), search_witnesses(ctx)]
+		searches = [search_witnesses(ctx), search_exprs(ctx), search_programs(ctx), search_typed_programs(ctx)]
 	# findings outside the understood failing-input classes first (finish prints at most five VIOLATION lines)
 	from harness.c03_search import UNDERSTOOD
 	for sr in searches:
